@@ -501,6 +501,19 @@ def run(prop, tier, seed):
         for i in range(nst):
             tasks.append({'kind': 'stateful', 'prop': prop, 'tier': tier, 'shard': i, 'examples': per,
                           'steps': budget.get('steps', 12), 'seed': derive_seed(seed, prop, 1000 + i)})
+    # dry-run knobs (never set by the registered commands): VP_SMOKE=<f> keeps the fraction f of the generated cases of
+    # every shard and every 1/f-th enumeration task, to exercise a tier's code paths in minutes
+    smoke = float(os.environ.get('VP_SMOKE', '0') or 0)
+    if 0 < smoke < 1:
+        stride = max(1, int(round(1 / smoke)))
+        enum = [t for t in tasks if t['kind'] == 'enum']
+        keep = set(id(t) for t in enum[::stride])
+        tasks = [t for t in tasks if t['kind'] != 'enum' or id(t) in keep]
+        for t in tasks:
+            if 'examples' in t:
+                t['examples'] = max(5, int(t['examples'] * smoke))
+        budget = dict(budget, min_evaluations=1)
+        print(f'SMOKE RUN (VP_SMOKE={smoke}): reduced budget, not a verdict')
     if not tasks:
         print(f'harness error: no tasks for {prop}')
         return 2
